@@ -28,6 +28,16 @@ Theorem C19_local_backend_refuses_gpus :
 Proof. exact local_gpus_refused. Qed.
 Print Assumptions C19_local_backend_refuses_gpus.
 
+(* plot_dependency_graph=True needs the dependency resolver: with disable_dependencies=True the
+   constructor refuses - whatever backend, limits, cache directory, block allocation, init function -
+   instead of handing out an executor that would execute the calls (C20) *)
+Theorem C19_plot_without_dependencies_refused :
+  forall rr cpu mw b cd mc hl block f,
+    Executor_new rr cpu VNone mw (VStr b) cd mc VNone VNone VNone (VBool false) VNone hl block f
+                 (VBool true) FLOAT (VBool true) = Err "ValueError".
+Proof. exact plot_without_dependencies_refused. Qed.
+Print Assumptions C19_plot_without_dependencies_refused.
+
 Theorem C19_submission_refuses_block_allocation :
   forall rr cpu mw mc hl f backend dd,
     (backend = "slurm_submission" \/ backend = "flux_submission") ->
